@@ -303,7 +303,8 @@ theorem tb_buffer_add_af (b : C_rdsparser_buffer) (v : Nat) :
   unfold c_rdsparser_buffer_add_af
   rw [af_get_eq, af_get_eq]
   simp only [tb_b2i_bne]
-  cases afGet (bitsOf b.data_used.af.buffer) v <;> rfl
+  -- whichever way the C writes the first test (`if (!get) {…} return false` or `if (get) return false; …`)
+  all_goals (cases afGet (bitsOf b.data_used.af.buffer) v <;> rfl)
 
 theorem add_af_refines (r : C_librdsparser) (hI : CInv r) (v : Nat) (hv : v < 256) (log : CLog) :
     let out := c_rdsparser_add_af r (v : Int) log
